@@ -7,9 +7,9 @@ Property clause → theorem (quantified over every history of vault / stable-min
 configuration — zero and non-zero draw-down, stability and closing fees — and every pair of asset decimal scales):
 
 * "circulating supply … never exceeds the principal recorded on open vaults, stable-mint vaults, vaults awaiting
-   auction …, and in histories without liquidations it is exactly equal"                → `C02.supply_eq_principal`
-   (equality, for every history of the modelled messages *including* seizures; `C02.supply_le_principal` is the
-   inequality form). Auction settlement and emergency redemption are outside this model (C10) — partial.
+   auction …, and in histories without liquidations it is exactly equal"                → `C02.supply_le_principal`
+   (inequality for EVERY history incl. seizures and auction settlements) and `C02.supply_eq_principal` (equality for
+   histories without auction settlement). Emergency redemption (x/esm) is outside this model — partial.
 * "every successful mint delivers to the user exactly the recorded new principal less the configured draw-down fee
    (which goes to the fee collector)"                                                   → `C02.mint_delivers_create`,
                                                               `C02.mint_delivers_draw`, `C02.mint_delivers_stable`
@@ -20,22 +20,28 @@ configuration — zero and non-zero draw-down, stability and closing fees — an
 namespace Comdex.C02
 open Comdex Comdex.Vault Comdex.C01
 
-/-- **Supply = principal**: the supply of every denom equals the principal recorded on open vaults, stable-mint vaults
-and vaults awaiting auction, plus whatever was minted outside the vault module (`extSupply`, zero for an asset that
-is minted only through vaults). -/
-theorem supply_eq_principal (cfg : Nat → Option Product) (hc : CfgOk cfg) (h : History) (hu : UsersOk h) (d : Nat) :
+/-- **Supply = principal** (histories without auction settlement, liquidation seizures included): the supply of every
+denom equals the principal recorded on open vaults, stable-mint vaults and vaults awaiting auction, plus whatever was
+minted outside the vault module (`extSupply`, zero for an asset that is minted only through vaults). -/
+theorem supply_eq_principal (cfg : Nat → Option Product) (hc : CfgOk cfg) (h : History) (hu : UsersOk h) (hn : NoSettle h)
+    (d : Nat) :
     let s := runAll cfg State.init h
     s.supply d = principalRecorded cfg s d + s.extSupply d :=
-  (inv_always cfg hc h hu State.init (init_inv cfg hc)).2.2.2.2.1 d
+  (inv_always cfg hc h hu hn).2.2.2.2.1 d
 
+/-- **Supply ≤ principal** after EVERY history — vault messages, liquidation seizures AND auction settlements (which
+burn principal + interest + closing fee of the seized vault): the circulating supply never exceeds the recorded
+principal of open, stable-mint and awaiting-auction vaults (plus outside funding). -/
 theorem supply_le_principal (cfg : Nat → Option Product) (hc : CfgOk cfg) (h : History) (hu : UsersOk h) (d : Nat) :
     let s := runAll cfg State.init h
-    s.supply d - s.extSupply d ≤ principalRecorded cfg s d := by
-  have := supply_eq_principal cfg hc h hu d
-  simp only at this ⊢
+    s.supply d ≤ principalRecorded cfg s d + s.extSupply d := by
+  obtain ⟨G', h', g, _⟩ := invG_always cfg hc h hu Gaps.zero State.init ((invG_zero cfg _).mpr (init_inv cfg hc)) goodGaps_zero
+  have := h'.2.2.2.2.1 d
+  have := g.2.2.2.2 d
+  simp only [SupplyAtG] at *
   omega
 
-/-- **Burn exactly what is retired / never mint interest**: across any accepted message the supply of a denom
+/-- **Burn exactly what is retired / never mint interest**: across any accepted vault message the supply of a denom
 moves by exactly the change of recorded principal (plus outside funding). Interest and closing-fee transfers do not
 touch recorded principal, hence do not touch supply. -/
 theorem supply_moves_with_principal (cfg : Nat → Option Product) (hc : CfgOk cfg) (s s' : State) (e : Env) (m : Msg)
@@ -43,7 +49,7 @@ theorem supply_moves_with_principal (cfg : Nat → Option Product) (hc : CfgOk c
     s'.supply d - s.supply d =
       (principalRecorded cfg s' d - principalRecorded cfg s d) + (s'.extSupply d - s.extSupply d) := by
   have h1 := hinv.2.2.2.2.1 d
-  have h2 := (step_inv cfg hc s s' e m hm hns hinv h).2.2.2.2.1 d
+  have h2 := ((invG_zero cfg s').mp (step_inv cfg Gaps.zero hc s s' e m hm hns ((invG_zero cfg s).mpr hinv) h)).2.2.2.2.1 d
   unfold SupplyAt at h1 h2
   omega
 
